@@ -528,7 +528,7 @@ func Mutate(t *rapid.T, ns *models.Namespace, tag string) string {
 			"table_case_dup", "table_case_flip", "parent_case_flip", "linked_missing", "linked_to_linked", "linked_self", "linked_case_clash",
 			"padding_short", "padding_begin_end", "type_unknown", "type_default", "row_limit_zero", "murmur_vbt", "murmur_seed", "hash_slice_bad",
 			// the location edits are the heart of the property: weight them
-			"loc_zero", "loc_negative", "loc_negative", "table_case_dup", "table_case_dup")
+			"loc_zero", "loc_negative", "loc_negative", "table_case_dup", "table_case_dup", "padding_short", "db_dup")
 	}
 	k := pick(t, tag+"_kind", kinds)
 	idx := func(n int, name string) int {
@@ -706,6 +706,12 @@ func Mutate(t *rapid.T, ns *models.Namespace, tag string) string {
 		// a linked table whose name is a case variant of its own parent
 		ns.ShardRules = append(ns.ShardRules, &models.Shard{DB: rule.DB, Table: flipCase(rule.Table), Type: models.ShardLinked, ParentTable: rule.Table, Key: "id"})
 	case "padding_short":
+		for _, r := range nonLinked { // prefer a padding rule when the namespace has one
+			if r.Type == models.ShardMycatPaddingMod {
+				rule = r
+				break
+			}
+		}
 		if rule.Type == models.ShardMycatPaddingMod {
 			rule.PadLength = pick(t, tag+"_pl", []string{"1", "2", "6"})
 			rule.ModBegin, rule.ModEnd = "10", "16"
